@@ -6,7 +6,10 @@
     hl.run   <pinned|repaired> <n> <cfg_0> … <cfg_{n-1}> <sched>
     hl.micro <pinned|repaired> <n> <cfg_0> … <cfg_{n-1}> <sched>
 
-  cfg_w  = inode,linked,yMkdir,yCopy,yLink,failMkdir,failCopy,failAttrs,failLink   (numbers, 0/1)
+  cfg_w  = inode,linked,action,large,dst0ino,dst0content,yMkdir,yCopy,yLink,failMkdir,failCopy,failAttrs,failLink
+           (numbers, 0/1; action = c|u|s for create/update/skip; dst0ino dst0content = `-` `-` when the
+           path does not exist before the run; for an update yMkdir/failMkdir script `remove` and
+           yCopy/failCopy script `sync_file_with_delta`)
   sched  = `-` or worker ids separated by `.`
 
   `hl.run` polls (`poll`, the macro-step) the listed workers in order and answers one record per
@@ -30,6 +33,8 @@ def showOp : Op → String
   | .copy => "copy"
   | .attrs => "attrs"
   | .link => "link"
+  | .sync => "sync"
+  | .remove => "remove"
 
 def showLabel : Label → String
   | .plain => "plain"
@@ -45,6 +50,8 @@ def showLabel : Label → String
   | .yield op => s!"y-{showOp op}"
   | .opOk op => s!"ok-{showOp op}"
   | .opErr op => s!"err-{showOp op}"
+  | .sameInode => "sameInode"
+  | .otherInode => "otherInode"
   | .complete => "complete"
   | .remove => "remove"
   | .notify => "notify"
@@ -56,6 +63,9 @@ def showPc : Pc → String
   | .armed g k => s!"armed{g}/{k}"
   | .waiting g k => s!"waiting{g}/{k}"
   | .linkOp p k => s!"link{p}/{k}"
+  | .sameOp p => s!"same{p}"
+  | .removeOp p k => s!"remove{p}/{k}"
+  | .syncOp k => s!"sync/{k}"
   | .mkdirOp k => s!"mkdir/{k}"
   | .copyOp k => s!"copy/{k}"
   | .metaOp => "attrs"
@@ -102,11 +112,24 @@ def showTail (cfg : Cfg) (s : State) : String :=
 def parseBool (s : String) : Option Bool :=
   if s == "0" then some false else if s == "1" then some true else none
 
+def parseAction (s : String) : Option Action :=
+  if s == "c" then some .create else if s == "u" then some .update else if s == "s" then some .skip else none
+
+def parseDst0 (i c : String) : Option (Option File) :=
+  if i == "-" && c == "-" then some none
+  else do
+    let ino ← i.toNat?
+    let content ← c.toNat?
+    pure (some ⟨ino, content⟩)
+
 def parseWorker (s : String) : Option WorkerCfg :=
   match s.splitOn "," with
-  | [i, l, ym, yc, yl, fm, fc, fx, fl] => do
+  | [i, l, a, lg, di, dc, ym, yc, yl, fm, fc, fx, fl] => do
     let inode ← i.toNat?
     let linked ← parseBool l
+    let action ← parseAction a
+    let large ← parseBool lg
+    let dst0 ← parseDst0 di dc
     let yMkdir ← ym.toNat?
     let yCopy ← yc.toNat?
     let yLink ← yl.toNat?
@@ -114,7 +137,7 @@ def parseWorker (s : String) : Option WorkerCfg :=
     let failCopy ← parseBool fc
     let failMeta ← parseBool fx
     let failLink ← parseBool fl
-    pure { inode, linked, yMkdir, yCopy, yLink, failMkdir, failCopy, failMeta, failLink }
+    pure { inode, linked, action, large, dst0, yMkdir, yCopy, yLink, failMkdir, failCopy, failMeta, failLink }
   | _ => none
 
 def parseVariant (s : String) : Option Variant :=
@@ -156,13 +179,13 @@ def handle (toks : List String) : Option String :=
   | "hl.run" :: rest =>
     match parseRun rest with
     | some (cfg, sched) =>
-      let (s, recs) := runPolls cfg init sched []
+      let (s, recs) := runPolls cfg (init cfg) sched []
       s!"{joinOr ";" recs} | {showTail cfg s}"
     | none => "bad-op"
   | "hl.micro" :: rest =>
     match parseRun rest with
     | some (cfg, sched) =>
-      let (s, labels, left) := runMicro cfg init sched
+      let (s, labels, left) := runMicro cfg (init cfg) sched
       let pcs := joinOr "," ((List.range cfg.n).map fun w => showPc (s.pc w))
       s!"{joinOr "," (labels.map showLabel)} | rest={joinOr "." (left.map toString)} | {pcs} | {showMap cfg s} | {showTail cfg s}"
     | none => "bad-op"
